@@ -654,7 +654,10 @@ def has_side_effect(node: ast.AST, safe_callable_whitelist: Collection[str] = fr
 
         # What is evaluated when the definition itself is executed
         if isinstance(node, ast.ClassDef):
-            evaluated = [*node.bases, *(keyword.value for keyword in node.keywords), *node.body]
+            if node.bases or node.keywords:
+                # Creating the class calls __init_subclass__ of the bases / the metaclass
+                return True
+            evaluated = node.body
         else:
             arguments = node.args
             evaluated = [
